@@ -172,7 +172,7 @@ def _create(e, c, a):
     return Enum('Ok', [Opaque('File(%s)' % path)], 'Result')
 @cmodel('Path::to_string_lossy', 'PathBuf::to_string_lossy')
 def _lossy(e, c, a): return StrBuf(as_pystr(a[0]))
-@cmodel('serde_json::to_writer')
+@cmodel('serde_json::to_writer', 'to_writer')
 def _to_writer(e, c, a):
     e.hooks.setdefault('fs_events', []).append(('write', repr(deref(a[0]))))
     return Enum('Ok', [UNIT], 'Result')
